@@ -138,7 +138,14 @@ fn case_typed<S: Spec>(sub: &str, id: u64, r: &mut Report) {
                 }
                 // (ii) same seed, read positions k words apart
                 2 => {
-                    let skip = p.below(2 * bw as u64 + 3) as usize;
+                    // read positions near the start, and deep in the stream (block numbers that
+                    // are multiples of 64 / beyond 2^16 words: counters that wrap or are reduced)
+                    let skip = match p.below(6) {
+                        0 => 1000 + p.below(60) as usize,
+                        1 => 2030 + p.below(40) as usize,
+                        2 => 65_500 + p.below(80) as usize,
+                        _ => p.below(2 * bw as u64 + 3) as usize,
+                    };
                     let k = p.range(0, 3) as usize;
                     let mut a = S::from_seed(&seed);
                     let mut b = S::from_seed(&seed);
@@ -160,9 +167,31 @@ fn case_typed<S: Spec>(sub: &str, id: u64, r: &mut Report) {
                     for op in &hist {
                         apply_ext::<S>(&mut a, op);
                     }
-                    let (_, seed2) = gen_seed(&mut p, S::SEED_LEN, wb, true);
+                    // destination: unrelated, or the SAME seed a few words behind / ahead of
+                    // the source (same block, same core), or one state word apart
+                    let (_, mut seed2) = gen_seed(&mut p, S::SEED_LEN, wb, true);
+                    let mut m = p.range(0, 2 * bw as u64 + 5) as usize;
+                    match p.below(4) {
+                        0 => {
+                            seed2 = seed.clone();
+                            let consumed: usize = hist.iter().map(|o| match o { Op::U32 => 1, Op::U64 => 2, _ => 0 }).sum();
+                            m = (consumed + p.below(7) as usize).saturating_sub(3);
+                            r.cov("clone_from_related_destination");
+                        }
+                        1 => {
+                            seed2 = seed.clone();
+                            let w = p.below((S::SEED_LEN / wb) as u64) as usize;
+                            seed2[w * wb] ^= 1 << p.below(8);
+                            m = 0;
+                            r.cov("clone_from_related_destination");
+                        }
+                        _ => {}
+                    }
                     let mut b = S::from_seed(&seed2);
-                    let m = p.range(0, 2 * bw as u64 + 5) as usize;
+                    if seed2 == seed && p.chance(1, 2) {
+                        // same history as the source first, so that only the read position differs
+                        for op in &hist { if matches!(op, Op::Jump | Op::LongJump) { apply_ext::<S>(&mut b, op); } }
+                    }
                     for _ in 0..m { apply_ext::<S>(&mut b, &Op::U32); }
                     b.clone_from(&a);
                     let res = run_pair::<S>(&mut a, &mut b, &cont, r);
@@ -455,6 +484,9 @@ pub fn run(ctx: &Ctx, only: Option<&Only>) -> Report {
         total.floor(&format!("type:{}", n), 100);
         total.floor(&format!("{}:clone", n), 20);
         total.floor(&format!("{}:clone_from", n), 20);
+    }
+    total.floor("clone_from_related_destination", 500);
+    {
     }
     total.floor("Hc128Rng:same_block_different_index", 10);
     total.floor("Hc128Rng:shifted_position:eq=false", 10);
